@@ -60,14 +60,14 @@ Theorem C06_serve_dir_complete_any_spelling :
 Proof. exact serve_dir_complete. Qed.
 
 (* ---------------------------------------------------------------------------------------------- *)
-(* 2. the server's `directory` routes (pattern `prefix*...`; Content-Type always present)           *)
+(* 2. the server's `directory` routes (pattern `prefix*...` or `prefix`; Content-Type always present) *)
 (* ---------------------------------------------------------------------------------------------- *)
 Theorem C06_directory_route_complete :
   forall (fs : node) (directory : bytes) (root : list bytes),
     wf_fs fs ->
     walk fs [] (split_on SLASH (trim_end_slashes directory)) = Some root ->
   forall (matches prefix : bytes) (names : list bytes) (content : bytes),
-    ((exists tail, matches = prefix ++ 42 :: tail) /\
+    ((matches = prefix \/ exists tail, matches = prefix ++ 42 :: tail) /\
      existsb (fun b => b =? 42) prefix = false /\ utf8_valid prefix = true) ->
     names <> [] -> Forall clean names ->
     node_at fs (root ++ names) = Some (File content) ->
@@ -83,7 +83,7 @@ Theorem C06_directory_route_complete_raw :
     wf_fs fs ->
     walk fs [] (split_on SLASH (trim_end_slashes directory)) = Some root ->
   forall (matches prefix : bytes) (names : list bytes) (content : bytes),
-    ((exists tail, matches = prefix ++ 42 :: tail) /\
+    ((matches = prefix \/ exists tail, matches = prefix ++ 42 :: tail) /\
      existsb (fun b => b =? 42) prefix = false /\ utf8_valid prefix = true) ->
     names <> [] -> Forall clean names ->
     Forall (fun n => pct_decode n = Some n) names ->
@@ -100,7 +100,7 @@ Theorem C06_directory_route_complete_any_spelling :
     wf_fs fs ->
     walk fs [] (split_on SLASH (trim_end_slashes directory)) = Some root ->
   forall (matches prefix : bytes) (k : nat) (names segs : list bytes) (content : bytes),
-    ((exists tail, matches = prefix ++ 42 :: tail) /\
+    ((matches = prefix \/ exists tail, matches = prefix ++ 42 :: tail) /\
      existsb (fun b => b =? 42) prefix = false /\ utf8_valid prefix = true) ->
     names <> [] -> Forall clean names ->
     Forall2 (fun s n => pct_decode s = Some n) segs names ->
@@ -115,11 +115,12 @@ Proof. exact directory_handler_complete. Qed.
 (* the prefix strip of directory routes (String::remove(0) once per character of the pattern before its first '*')
    removes exactly the prefix: no panic, no off-by-one on multi-byte characters *)
 Theorem C06_directory_route_strip :
-  forall (p tail rest : bytes),
+  forall (p suffix rest : bytes),
+    (suffix = [] \/ exists tail, suffix = 42 :: tail) ->
     nob 42 p = true ->
     match p with b :: _ => cont b = false | [] => True end ->
     match rest with b :: _ => cont b = false | [] => True end ->
-    drop_chars (literal_prefix_len (p ++ 42 :: tail)) (p ++ rest) = Some rest.
+    drop_chars (literal_prefix_len (p ++ suffix)) (p ++ rest) = Some rest.
 Proof. exact drop_chars_prefix. Qed.
 
 (* ---------------------------------------------------------------------------------------------- *)
@@ -156,7 +157,7 @@ Theorem C06_directory_route_redirect :
     wf_fs fs ->
     walk fs [] (split_on SLASH (trim_end_slashes directory)) = Some root ->
   forall (matches prefix : bytes) (names : list bytes) (es : list (bytes * node)),
-    ((exists tail, matches = prefix ++ 42 :: tail) /\
+    ((matches = prefix \/ exists tail, matches = prefix ++ 42 :: tail) /\
      existsb (fun b => b =? 42) prefix = false /\ utf8_valid prefix = true) ->
     names <> [] -> Forall clean names ->
     node_at fs (root ++ names) = Some (Dir es) ->
@@ -182,7 +183,7 @@ Theorem C06_directory_route_redirect_any_spelling :
     wf_fs fs ->
     walk fs [] (split_on SLASH (trim_end_slashes directory)) = Some root ->
   forall (matches prefix : bytes) (k : nat) (names segs : list bytes) (es : list (bytes * node)),
-    ((exists tail, matches = prefix ++ 42 :: tail) /\
+    ((matches = prefix \/ exists tail, matches = prefix ++ 42 :: tail) /\
      existsb (fun b => b =? 42) prefix = false /\ utf8_valid prefix = true) ->
     names <> [] -> Forall clean names ->
     Forall2 (fun s n => pct_decode s = Some n) segs names ->
@@ -224,7 +225,7 @@ Theorem C06_directory_route_index :
     wf_fs fs ->
     walk fs [] (split_on SLASH (trim_end_slashes directory)) = Some root ->
   forall (matches prefix : bytes) (names : list bytes) (es : list (bytes * node)),
-    ((exists tail, matches = prefix ++ 42 :: tail) /\
+    ((matches = prefix \/ exists tail, matches = prefix ++ 42 :: tail) /\
      existsb (fun b => b =? 42) prefix = false /\ utf8_valid prefix = true) ->
     names <> [] -> Forall clean names ->
     node_at fs (root ++ names) = Some (Dir es) ->
@@ -248,7 +249,7 @@ Theorem C06_directory_route_index_root :
     wf_fs fs ->
     walk fs [] (split_on SLASH (trim_end_slashes directory)) = Some root ->
   forall (matches prefix : bytes) (es : list (bytes * node)),
-    ((exists tail, matches = prefix ++ 42 :: tail) /\
+    ((matches = prefix \/ exists tail, matches = prefix ++ 42 :: tail) /\
      existsb (fun b => b =? 42) prefix = false /\ utf8_valid prefix = true) ->
     node_at fs root = Some (Dir es) ->
     directory_handler fs directory matches prefix = index_response es.
@@ -272,7 +273,7 @@ Theorem C06_directory_route_index_any_spelling :
     wf_fs fs ->
     walk fs [] (split_on SLASH (trim_end_slashes directory)) = Some root ->
   forall (matches prefix : bytes) (k : nat) (names segs : list bytes) (es : list (bytes * node)),
-    ((exists tail, matches = prefix ++ 42 :: tail) /\
+    ((matches = prefix \/ exists tail, matches = prefix ++ 42 :: tail) /\
      existsb (fun b => b =? 42) prefix = false /\ utf8_valid prefix = true) ->
     Forall clean names ->
     Forall2 (fun s n => pct_decode s = Some n) segs names ->
@@ -307,6 +308,18 @@ Theorem C06_serve_dir_missing_404 :
     node_at fs (root ++ front) = Some (Dir es) -> assoc_name t es = None ->
     serve_dir fs directory route (prefix ++ repeat SLASH k ++ join SLASH segs) = R404.
 Proof. exact serve_dir_missing. Qed.
+
+(* The exclusions are sharp.  A file named "a..b", "a:b" or "\xff.txt" (not UTF-8) is a possible entry of a well-formed
+   tree, yet it is answered 404 (confirmed on the real handlers): the converse cannot be stated without `clean`. *)
+Theorem C06_complete_without_exclusions_refuted :
+  forall bad, In bad [[97;46;46;98]; [97;58;98]; [255;46;116;120;116]] ->
+    wf_fs (one_file_tree bad) /\
+    walk (one_file_tree bad) [] (split_on SLASH (trim_end_slashes [47;119;119;119])) = Some [[119;119;119]] /\
+    node_at (one_file_tree bad) ([[119;119;119]] ++ [bad]) = Some (File [1]) /\
+    serve_dir (one_file_tree bad) [47;119;119;119] [47;42] ([47] ++ join SLASH (map percent_encode [bad])) = R404 /\
+    directory_handler (one_file_tree bad) [47;119;119;119] [47;42] ([47] ++ join SLASH (map percent_encode [bad])) = R404 /\
+    ~ clean bad.
+Proof. exact complete_exclusions_sharp. Qed.
 
 (* ---------------------------------------------------------------------------------------------- *)
 (* reading aids: what the vocabulary means                                                          *)
@@ -428,6 +441,7 @@ Print Assumptions C06_serve_dir_index_any_spelling.
 Print Assumptions C06_directory_route_index_any_spelling.
 Print Assumptions C06_try_find_path_complete.
 Print Assumptions C06_serve_dir_missing_404.
+Print Assumptions C06_complete_without_exclusions_refuted.
 Print Assumptions C06_assoc_name_unique.
 Print Assumptions C06_spells_encoded.
 Print Assumptions C06_raw_iff_no_percent.
